@@ -712,3 +712,58 @@ pub fn c07_text_sweep(cx: &SweepCtx, quick: bool, threads: usize) {
         cx.stats.sample(|| format!("{t:?}: 7 storage states x 5 operations x 2 forms x indices 0..={}", t.len() + 2));
     });
 }
+
+// -------------------------------------------------------------------------------------
+// C20: niche sweep (every possible 16th byte, heap/static strings of many lengths)
+
+pub fn c20_sweep(cx: &SweepCtx, quick: bool) {
+    let n = std::mem::size_of::<LeanString>();
+    let none: Option<LeanString> = None;
+    let none_tag = unsafe { *(&none as *const Option<LeanString> as *const u8).add(n - 1) };
+    let mut texts_: Vec<String> = Vec::new();
+    for b in 0u8..=0x7F {
+        texts_.push(format!("{}{}", ascii(INLINE - 1), b as char));
+    }
+    for b in 0x80u8..=0xBF {
+        for tail in [vec![0xC3, b], vec![0xE1, 0x80, b], vec![0xF1, 0x80, 0x80, b]] {
+            let tail = String::from_utf8(tail).unwrap();
+            texts_.push(format!("{}{tail}", ascii(INLINE - tail.len())));
+        }
+    }
+    for len in 0..=INLINE {
+        texts_.push(ascii(len).to_string());
+    }
+    let lens: Vec<usize> = if quick { vec![17, 18, 31, 32, 33, 255, 256, 257, 65535, 65536, 65537] } else { (17..=600).chain([65535, 65536, 65537, (1 << 20) - 1, 1 << 20, (1 << 24) - 1, 1 << 24, (1 << 24) + 1]).collect() };
+    for len in lens {
+        texts_.push(long_text(len));
+    }
+    for t in &texts_ {
+        for st in STORAGES {
+            shim::with(|s| s.reset());
+            let b = match build(t, st) {
+                Some(b) => b,
+                None => continue,
+            };
+            cx.count();
+            let mut out = Vec::new();
+            let raw = raw_of(&b.s);
+            let last = raw[n - 1];
+            let desc = format!("{st:?} text of {} bytes ending in {:#04x}", t.len(), t.as_bytes().last().copied().unwrap_or(0));
+            if last == none_tag || last > 0xD1 {
+                out.push(Viol { prop: "C20", oracle: "niche", detail: format!("{desc}: last byte of the handle is {last:#x} (None uses {none_tag:#x})") });
+            }
+            let o: Option<LeanString> = Some(b.s.clone());
+            let o = std::hint::black_box(o);
+            if o.is_none() || o.as_ref().map(|x| x.as_str()) != Some(t.as_str()) {
+                out.push(Viol { prop: "C20", oracle: "option-roundtrip", detail: format!("{desc}: Some(s) is mistaken for None or reads another text") });
+            }
+            let oo: Option<Option<LeanString>> = std::hint::black_box(Some(None));
+            if oo.is_none() {
+                out.push(Viol { prop: "C20", oracle: "option-roundtrip", detail: "Some(None) is mistaken for None".into() });
+            }
+            cx.stats.class(format!("{st:?}/last-byte-{}", if last < 0xC0 { "text" } else if last <= 0xCF { "inline-len" } else { "marker" }));
+            cx.report(&out, "niche-sweep", &format!("{st:?}"), &desc);
+        }
+    }
+    cx.stats.sample(|| format!("{} texts x 7 storage states; None::<LeanString> stores {none_tag:#x} in the last byte", texts_.len()));
+}
